@@ -326,6 +326,16 @@ func (x *Exec) atLoopHead(st *State, b, prev *ssa.BasicBlock, ord int, k Cont) {
 			st.written[key] = true
 			continue
 		}
+		if key == "G|$sends" || key == "G|$recvnil" {
+			if key == "G|$sends" {
+				st.ghost["$sends"] = leaf(nil, x.fresh(st, "sends", "(Array Int Int)"))
+				st.ghost["$lastsent"] = leaf(nil, x.fresh(st, "lastsent", "(Array Int Int)"))
+			} else {
+				st.ghost["$recvnil"] = leaf(nil, x.fresh(st, "recvnil", "(Array Int Bool)"))
+			}
+			st.written[key] = true
+			continue
+		}
 		if strings.HasPrefix(key, "G|") {
 			g := x.eng.cs.Ghosts[key[2:]]
 			if g != nil {
@@ -841,6 +851,13 @@ func (x *Exec) chanRecv(st *State, in *ssa.UnOp, ch *Value) *Value {
 		et = tt.At(0).Type()
 	}
 	val = x.freshValue(st, et, "recv")
+	// ghost: recvdnil[ch] becomes true once a nil interface value has been received from ch
+	if g, ok := st.ghost["$recvnil"]; ok && ch.K == KLeaf && val.K == KIface {
+		name := x.fresh(st, "recvnil", "(Array Int Bool)")
+		st.assume(fmt.Sprintf("(= %s (store %s %s (or (select %s %s) (= %s 0))))", name, g.Term, ch.Term, g.Term, ch.Term, val.Fs[0].Term))
+		st.ghost["$recvnil"] = leaf(nil, name)
+		st.written["G|$recvnil"] = true
+	}
 	if in.CommaOk {
 		return &Value{K: KTuple, T: in.Type(), Fs: []*Value{val, leaf(types.Typ[types.Bool], x.fresh(st, "recvok", "Bool"))}}
 	}
